@@ -40,6 +40,8 @@ pub enum TryVariant {
 #[derive(Clone, Debug, PartialEq, Eq)]
 pub enum IterItem {
     None,
+    /// result of the terminal `count()`
+    Count(usize),
     Pair { ktok: u32, vtok: u32, kaddr: usize, vaddr: usize },
     Key { ktok: u32, kaddr: usize },
     Val { vtok: u32, vaddr: usize },
@@ -121,8 +123,23 @@ fn addr<T>(r: &T) -> usize {
 
 const ITER_ALIVE_PANIC: &str = "panic_with_iterator_alive";
 
-/// Ends an iterator script: drop, forget, or let the handle be dropped by an unwinding panic.
-fn finish<I>(it: I, end: EndMode) {
+/// Drives an iterator through a script of next / next_back / nth / nth_back calls and ends it as
+/// `end` says: drop, forget, dropped by an unwinding panic of the caller, or consumed by one of the
+/// provided methods an implementation may override (count, last, fold).
+fn drive<I: DoubleEndedIterator>(mut it: I, script: &[bool], skips: &[u8], end: EndMode, items: &mut Vec<IterItem>, mut on_item: impl FnMut(I::Item) -> IterItem) {
+    for (n, &front) in script.iter().enumerate() {
+        let k = skips.get(n).copied().unwrap_or(0) as usize;
+        let x = match (front, k) {
+            (true, 0) => it.next(),
+            (false, 0) => it.next_back(),
+            (true, k) => it.nth(k),
+            (false, k) => it.nth_back(k),
+        };
+        items.push(match x {
+            None => IterItem::None,
+            Some(x) => on_item(x),
+        });
+    }
     match end {
         EndMode::Drop => drop(it),
         EndMode::Forget => std::mem::forget(it),
@@ -130,6 +147,15 @@ fn finish<I>(it: I, end: EndMode) {
             let _alive = it;
             std::panic::panic_any(Injected(ITER_ALIVE_PANIC));
         }
+        EndMode::Count => items.push(IterItem::Count(it.count())),
+        EndMode::Last => {
+            let x = it.last();
+            items.push(match x {
+                None => IterItem::None,
+                Some(x) => on_item(x),
+            });
+        }
+        EndMode::Fold => it.fold((), |(), x| items.push(on_item(x))),
     }
 }
 
@@ -186,6 +212,15 @@ pub fn exec(w: &mut World, op: &Op) -> Outcome {
             w.caches[1 - t] = Some(c);
             return Outcome::Cloned;
         }
+        OpKind::CloneFrom => {
+            let (a, b) = w.caches.split_at_mut(1);
+            let (src, dst) = if t == 0 { (&a[0], &mut b[0]) } else { (&b[0], &mut a[0]) };
+            match dst {
+                Some(d) => d.clone_from(src.as_ref().unwrap()),
+                None => *dst = Some(src.as_ref().unwrap().clone()),
+            }
+            return Outcome::Cloned;
+        }
         OpKind::DropCache => {
             let c = w.caches[t].take();
             drop(c);
@@ -194,9 +229,9 @@ pub fn exec(w: &mut World, op: &Op) -> Outcome {
             }
             return Outcome::Unit;
         }
-        OpKind::IterScript { kind, script, end } if kind.consumes_cache() => {
+        OpKind::IterScript { kind, script, end, skips } if kind.consumes_cache() => {
             let c = w.caches[t].take().unwrap();
-            let out = run_owning(w, c, *kind, script, *end);
+            let out = run_owning(w, c, *kind, script, skips, *end);
             w.caches[t] = Some(World::make_cache(&w.cfg));
             return out;
         }
@@ -416,74 +451,29 @@ pub fn exec(w: &mut World, op: &Op) -> Outcome {
                 cur: cache.current_size(),
                 max: cache.max_size(),
                 cap: cache.capacity(),
-                hasher_ok: h.mode == w.cfg.mode && h.salt == w.cfg.salt,
+                hasher_ok: h.mode == w.cfg.mode && (h.salt == w.cfg.salt || w.cfg.mode == HashMode::Rekey),
             }
         }
-        OpKind::IterScript { kind, script, end } => {
-            let mut items = Vec::with_capacity(script.len());
+        OpKind::IterScript { kind, script, end, skips } => {
+            let mut items = Vec::with_capacity(script.len() + 1);
             let items_ref = &mut items;
             let held_k_ref = &mut held_k;
             let held_v_ref = &mut held_v;
-            absorb_iter_panic(|| {
-            let items = items_ref;
-            let held_k = held_k_ref;
-            let held_v = held_v_ref;
-            match kind {
-                IterKind::Iter => {
-                    let mut it = cache.iter();
-                    for &front in script {
-                        let x = if front { it.next() } else { it.next_back() };
-                        items.push(match x {
-                            None => IterItem::None,
-                            Some((k, v)) => IterItem::Pair { ktok: k.tok, vtok: v.tok, kaddr: addr(k), vaddr: addr(v) },
-                        });
-                    }
-                    finish(it, *end);
-                }
-                IterKind::Keys => {
-                    let mut it = cache.keys();
-                    for &front in script {
-                        let x = if front { it.next() } else { it.next_back() };
-                        items.push(match x {
-                            None => IterItem::None,
-                            Some(k) => IterItem::Key { ktok: k.tok, kaddr: addr(k) },
-                        });
-                    }
-                    finish(it, *end);
-                }
-                IterKind::Values => {
-                    let mut it = cache.values();
-                    for &front in script {
-                        let x = if front { it.next() } else { it.next_back() };
-                        items.push(match x {
-                            None => IterItem::None,
-                            Some(v) => IterItem::Val { vtok: v.tok, vaddr: addr(v) },
-                        });
-                    }
-                    finish(it, *end);
-                }
-                IterKind::Drain => {
-                    let mut it = cache.drain();
-                    for &front in script {
-                        let x = if front { it.next() } else { it.next_back() };
-                        items.push(match x {
-                            None => IterItem::None,
-                            Some((k, v)) => {
-                                let item = IterItem::Pair { ktok: k.tok, vtok: v.tok, kaddr: 0, vaddr: 0 };
-                                held_k.push(k);
-                                held_v.push(v);
-                                item
-                            }
-                        });
-                    }
-                    finish(it, *end);
-                }
+            absorb_iter_panic(|| match kind {
+                IterKind::Iter => drive(cache.iter(), script, skips, *end, items_ref, |(k, v)| IterItem::Pair { ktok: k.tok, vtok: v.tok, kaddr: addr(k), vaddr: addr(v) }),
+                IterKind::Keys => drive(cache.keys(), script, skips, *end, items_ref, |k| IterItem::Key { ktok: k.tok, kaddr: addr(k) }),
+                IterKind::Values => drive(cache.values(), script, skips, *end, items_ref, |v| IterItem::Val { vtok: v.tok, vaddr: addr(v) }),
+                IterKind::Drain => drive(cache.drain(), script, skips, *end, items_ref, |(k, v)| {
+                    let item = IterItem::Pair { ktok: k.tok, vtok: v.tok, kaddr: 0, vaddr: 0 };
+                    held_k_ref.push(k);
+                    held_v_ref.push(v);
+                    item
+                }),
                 _ => unreachable!(),
-            }
             });
             Outcome::Iter(items)
         }
-        OpKind::CloneTo | OpKind::DropCache => unreachable!(),
+        OpKind::CloneTo | OpKind::CloneFrom | OpKind::DropCache => unreachable!(),
     };
     w.held_k.append(&mut held_k);
     w.held_v.append(&mut held_v);
@@ -491,60 +481,29 @@ pub fn exec(w: &mut World, op: &Op) -> Outcome {
     out
 }
 
-fn run_owning(w: &mut World, c: Cache, kind: IterKind, script: &[bool], end: EndMode) -> Outcome {
-    let mut items = Vec::with_capacity(script.len());
+fn run_owning(w: &mut World, c: Cache, kind: IterKind, script: &[bool], skips: &[u8], end: EndMode) -> Outcome {
+    let mut items = Vec::with_capacity(script.len() + 1);
     let items_ref = &mut items;
-    absorb_iter_panic(|| {
-    let items = items_ref;
-    match kind {
-        IterKind::IntoIter => {
-            let mut it = c.into_iter();
-            for &front in script {
-                let x = if front { it.next() } else { it.next_back() };
-                items.push(match x {
-                    None => IterItem::None,
-                    Some((k, v)) => {
-                        let item = IterItem::Pair { ktok: k.tok, vtok: v.tok, kaddr: 0, vaddr: 0 };
-                        w.hold_k(k);
-                        w.hold_v(v);
-                        item
-                    }
-                });
-            }
-            finish(it, end);
-        }
-        IterKind::IntoKeys => {
-            let mut it = c.into_keys();
-            for &front in script {
-                let x = if front { it.next() } else { it.next_back() };
-                items.push(match x {
-                    None => IterItem::None,
-                    Some(k) => {
-                        let item = IterItem::Key { ktok: k.tok, kaddr: 0 };
-                        w.hold_k(k);
-                        item
-                    }
-                });
-            }
-            finish(it, end);
-        }
-        IterKind::IntoValues => {
-            let mut it = c.into_values();
-            for &front in script {
-                let x = if front { it.next() } else { it.next_back() };
-                items.push(match x {
-                    None => IterItem::None,
-                    Some(v) => {
-                        let item = IterItem::Val { vtok: v.tok, vaddr: 0 };
-                        w.hold_v(v);
-                        item
-                    }
-                });
-            }
-            finish(it, end);
-        }
+    let held_k = &mut w.held_k;
+    let held_v = &mut w.held_v;
+    absorb_iter_panic(|| match kind {
+        IterKind::IntoIter => drive(c.into_iter(), script, skips, end, items_ref, |(k, v)| {
+            let item = IterItem::Pair { ktok: k.tok, vtok: v.tok, kaddr: 0, vaddr: 0 };
+            held_k.push(k);
+            held_v.push(v);
+            item
+        }),
+        IterKind::IntoKeys => drive(c.into_keys(), script, skips, end, items_ref, |k| {
+            let item = IterItem::Key { ktok: k.tok, kaddr: 0 };
+            held_k.push(k);
+            item
+        }),
+        IterKind::IntoValues => drive(c.into_values(), script, skips, end, items_ref, |v| {
+            let item = IterItem::Val { vtok: v.tok, vaddr: 0 };
+            held_v.push(v);
+            item
+        }),
         _ => unreachable!(),
-    }
     });
     Outcome::Iter(items)
 }
